@@ -19,6 +19,6 @@ CONSTANTS
   AsIs_NoSeqCheck = FALSE
   AsIs_MergeDupFilter = FALSE
   AsIs_ShortChunkPanics = FALSE
-  AsIs_PerRequestBound = TRUE
+  AsIs_PerRequestBound = FALSE
 INVARIANTS InvBounded InvEmit
 CHECK_DEADLOCK FALSE
